@@ -955,7 +955,16 @@ impl Xot {
             Following => Box::new(self.following(node)),
             Preceding => Box::new(self.preceding(node)),
             Axis::Self_ => Box::new(std::iter::once(node)),
-            DescendantOrSelf => Box::new(self.descendants(node)),
+            DescendantOrSelf => {
+                // attribute and namespace nodes have no descendants, but
+                // they are their own self (as on the self and
+                // ancestor-or-self axes)
+                if self.is_attribute_node(node) || self.is_namespace_node(node) {
+                    Box::new(std::iter::once(node))
+                } else {
+                    Box::new(self.descendants(node))
+                }
+            }
             AncestorOrSelf => Box::new(self.ancestors(node)),
             Attribute => Box::new(self.attribute_nodes(node)),
         }
